@@ -535,6 +535,19 @@ def install(lib):
     def np_asarray(ex, x, *a, **k):
         return np_array(ex, x)
 
+    def np_stack(ex, xs, axis=0):
+        """jnp.stack of k scalars / leaves along a new leading axis: an array of length k whose i-th row is xs[i]"""
+        used(ex, "jnp.stack(xs, axis=0) of k equally shaped leaves is the length-k array with rows xs[0..k-1]")
+        if axis != 0 or not isinstance(xs, (list, tuple)) or not xs or not all(is_sym(i) or is_num(i) for i in xs):
+            raise Unsupported("jnp.stack of anything but a non-empty list of leaves along axis 0")
+        zs = [toz(i) for i in xs]
+        if len({z.sort() for z in zs}) != 1:
+            return np_array(ex, list(xs))
+        a = z3.K(INT, zs[0])
+        for idx, v in enumerate(zs):
+            a = z3.Store(a, idx, v)
+        return Arr(a, len(zs))
+
     def np_logical(op):
         def f(ex, a, b):
             if isinstance(a, Arr) or isinstance(b, Arr):
@@ -574,7 +587,13 @@ def install(lib):
             lo, hi = toz(a[0]), toz(a[1])
             j = z3.Int("j!ew")
             return Arr(z3.Lambda([j], j + lo), z3.If(hi > lo, hi - lo, 0))
-        raise Unsupported("arange(lo, hi, step)")
+        if len(a) == 3 and isinstance(a[2], int) and a[2] != 0:
+            lo, hi, st = toz(a[0]), toz(a[1]), a[2]
+            j = z3.Int("j!ew")
+            span = (hi - lo) if st > 0 else (lo - hi)
+            cnt = (span + abs(st) - 1) / abs(st)          # integer division on z3 Ints: ceil(span / |step|) for span > 0
+            return Arr(z3.Lambda([j], lo + j * st), z3.If(span > 0, cnt, 0))
+        raise Unsupported("arange(lo, hi, step) with a symbolic or zero step")
 
     def np_interp(ex, x, xp, fp):
         """jnp.interp(x, xp, fp): piecewise-linear interpolation through the knots (xp[k], fp[k]), clamped outside; xp non-decreasing"""
@@ -709,7 +728,7 @@ def install(lib):
             return z3.Function("vector_min", Leaf, Leaf)(x)
         return x
 
-    common = dict(argmax=np_argmax, full=np_full, issubdtype=np_issubdtype, floating=TypeTag("floating"), integer=TypeTag("integer"), all=np_all, any=np_any, flip=np_flip, searchsorted=np_searchsorted, max=np_amax, min=np_amin, amax=np_amax, amin=np_amin, zeros=np_zeros, interp=np_interp, argwhere=np_argwhere, ones=np_ones, arange=np_arange, array=np_array, asarray=np_asarray, where=np_where, clip=np_clip, roll=np_roll, take=np_take, maximum=np_maximum, minimum=np_minimum,
+    common = dict(stack=np_stack, argmax=np_argmax, full=np_full, issubdtype=np_issubdtype, floating=TypeTag("floating"), integer=TypeTag("integer"), all=np_all, any=np_any, flip=np_flip, searchsorted=np_searchsorted, max=np_amax, min=np_amin, amax=np_amax, amin=np_amin, zeros=np_zeros, interp=np_interp, argwhere=np_argwhere, ones=np_ones, arange=np_arange, array=np_array, asarray=np_asarray, where=np_where, clip=np_clip, roll=np_roll, take=np_take, maximum=np_maximum, minimum=np_minimum,
                   isnan=np_isnan, ceil=np_ceil, floor=np_floor, sqrt=np_sqrt, zeros_like=np_zeros_like, ones_like=np_ones_like,
                   logical_and=np_logical("and"), logical_or=np_logical("or"), logical_not=np_logical_not, exp=np_exp, log=np_log, tanh=np_tanh,
                   arctanh=np_arctanh, abs=b_abs, square=lambda ex, x: ex.binop(ast.Mult(), x, x),
